@@ -72,7 +72,7 @@ def kind_table(c, facts, rule='C07.R20'):
             have.setdefault(pos + ('[%s]' % v if v else ''), set()).add(adm)
     inferred = set(p for p, _ in CONSTRAINTS)       # a check at these positions repeats an equation: dropping it changes no verdict
     for pos, want in sorted(KIND_TABLE.items()):
-        got = have.get(pos)
+        got = have.get(pos) or have.get(pos.split('[')[0])       # a check under no guard covers every variant of the guarding enum
         if not got and pos in inferred:
             c.ok(R, {'position': pos, 'admits': 'decided by the equation of inference::constrain alone (R9 census)'})
         elif not got:
